@@ -301,7 +301,9 @@ impl Operator for QuantizeLinear {
                 quantize_linear(pool, input, y_scale, Some(y_zero_point.view()), self.axis)
                     .into_op_result()
             }
-            (None, Some(DataType::UInt8)) => {
+            // If neither a zero point nor an output type is specified, the
+            // output is uint8 with a zero point of zero.
+            (None, Some(DataType::UInt8) | None) => {
                 quantize_linear::<u8>(pool, input.view(), y_scale.view(), None, self.axis)
                     .into_op_result()
             }
